@@ -41,6 +41,7 @@ type topts struct {
 	ans            map[int]string
 	info           bool
 	recoverMode    string // "" | "e" | "a"
+	hop            *hopNet // round 8b: observe through the real RPC server of a Cluster
 }
 
 // faultyDS makes the real dsstate.List fail: at once, or with an error result
